@@ -58,7 +58,7 @@ Section PY.
   Lemma int_text_step : forall z s, pstep pr (IInt (fmt_d z)) s = Some (PObj (PInt z) :: s).
   Proof.
     intros z s. cbn [pstep]. unfold fmt_d. destruct (dec_of_Z_not_bool z) as [N0 N1].
-    rewrite N0, N1, parse_dec_Z_dec_of_Z. reflexivity.
+    unfold int_text. rewrite N0, N1, parse_dec_Z_dec_of_Z, bytes_eqb_refl. reflexivity.
   Qed.
 
   Lemma py_int : forall z, pgood (enc_int c z) (p_int c z) (PInt z).
@@ -100,8 +100,8 @@ Section PY.
 
   Lemma py_long : forall z, pgood (enc_long z) (p_long z) (PInt z).
   Proof.
-    intros z. apply pg_one; [apply wok_emit|]. intros s. cbn [pstep]. unfold fmt_d.
-    rewrite parse_dec_Z_dec_of_Z. reflexivity.
+    intros z. apply pg_one; [apply wok_emit|]. intros s. cbn [pstep]. unfold fmt_d, int_text.
+    rewrite parse_dec_Z_dec_of_Z, bytes_eqb_refl. reflexivity.
   Qed.
 
   Lemma py_float : forall f, (1 <= e_proto c)%Z -> f < 2 ^ 64 -> pgood (enc_float c f) (p_float c f) (PFloat f).
